@@ -182,6 +182,8 @@ PANIC_CALLEES = re.compile(
     r"|core::str::<impl str>::(split_at|split_at_mut)"
     r"|chrono::naive::date::NaiveDate::(from_ymd|from_yo|from_isoywd|from_num_days_from_ce|and_hms|and_hms_milli|and_hms_micro|and_hms_nano|succ|pred)"
     r"|chrono::time_delta::TimeDelta::(days|weeks|hours|minutes|seconds|milliseconds)"
+    r"|<chrono::naive::(date::NaiveDate|datetime::NaiveDateTime) as core::ops::arith::(Add|Sub|AddAssign|SubAssign)<chrono::(time_delta::TimeDelta|month::Months|naive::Days|naive::date::Days)>>::(add|sub|add_assign|sub_assign)"
+    r"|<chrono::time_delta::TimeDelta as core::ops::arith::(Add|Sub|Mul|Neg)(<.*>)?>::(add|sub|mul|neg)"
     r"|rust_decimal::decimal::Decimal::(new|from_i128_with_scale|from_parts_raw|powi|powu|powf|powd|sqrt|exp|ln|log10|rescale|set_scale|from_scientific)"
     r"|std::sync::(mutex::Mutex|rwlock::RwLock)<T>::(lock|read|write)"
     r"|core::iter::traits::iterator::Iterator::(step_by)"
